@@ -94,7 +94,11 @@ func wrapSyntacticError(state interface {
 				ptr = []byte(Pointer(ptr).Parent()) // problem is with parent array
 			case d.Tokens.Last.isObject():
 				where = "after object value (expecting ',' or '}')"
-				ptr = []byte(Pointer(ptr).Parent()) // problem is with parent object
+				// If a name is expected next, the pointer already
+				// identifies the object itself (see appendStackPointer).
+				if !d.Tokens.Last.NeedObjectName() {
+					ptr = []byte(Pointer(ptr).Parent()) // problem is with parent object
+				}
 			}
 		}
 		err = jsonwire.NewInvalidCharacterError(d.buf[pos:], where)
